@@ -173,7 +173,27 @@ fn read_request(s: &mut TcpStream) -> Request {
 
 /// replies to the i-th connection with script[i] (the last entry repeats)
 pub fn serve(script: Vec<Reply>) -> Server {
-    let listener = TcpListener::bind("127.0.0.1:0").expect("bind");
+    serve_on(0, script).expect("bind")
+}
+
+/// like `serve`, on a fixed port (for clients whose URL is fixed at generation time); None when
+/// the port cannot be bound
+pub fn serve_on(port: u16, script: Vec<Reply>) -> Option<Server> {
+    let mut listener = None;
+    for _ in 0..50 {
+        match TcpListener::bind(("127.0.0.1", port)) {
+            Ok(l) => {
+                listener = Some(l);
+                break;
+            }
+            Err(_) => std::thread::sleep(std::time::Duration::from_millis(20)),
+        }
+    }
+    let listener = listener?;
+    Some(serve_with(listener, script))
+}
+
+fn serve_with(listener: TcpListener, script: Vec<Reply>) -> Server {
     let port = listener.local_addr().unwrap().port();
     let accepted = Arc::new(AtomicUsize::new(0));
     let log = Arc::new(Mutex::new(vec![]));
